@@ -17,7 +17,7 @@ Oracles (written from the property statement / the vendor syntax, not from the g
   * names: every list name a policy row refers to (vendor syntax tables REFS) is defined by a row of the matching list
     generator (DEFS) fed the same inputs -- checked when no generator rejected the input.
   * rejection: every single condition / action of the program, run alone in a statement, either yields rows and no error,
-    or raises NotImplementedError having yielded no row for it; the stream of the whole program is the concatenation of
+    or raises an exception (of any class) having yielded no row for it; the stream of the whole program is the concatenation of
     these per-construct streams (cut, without any extra row, at the first rejected construct).
 """
 import itertools
@@ -511,6 +511,27 @@ def _check_case(case):
     summary = {}
 
     # ---- per construct + the stream of the whole program
+    # every condition / action of the program on its own (all of them: one rejected construct must not hide another)
+    seen = set()
+    for pol in policies:
+        for st in pol.statements:
+            for kind, objs in (("cond", list(st.match)), ("act", list(st.then))):
+                for obj in objs:
+                    if (kind, repr(obj)) in seen:
+                        continue
+                    seen.add((kind, repr(obj)))
+                    rows, err, msg, bad_header = construct_outcome(vendor, variant, kind, obj)
+                    what = "%s %r on %s" % ("condition" if kind == "cond" else "action", obj, vendor)
+                    if bad_header:
+                        fails.append((K + "statement-header:%s" % vendor, "the block of a single-construct statement does not start with the header",
+                                      HEADER[vendor]("ISO", "permit", 1), rows[:3]))
+                    if err and rows:
+                        # any exception class: the statement only asks for "an error before any line for it"
+                        fails.append((K + "error-after-lines:%s:%s" % (vendor, obj.field.value), "%s: rows were yielded for it and then it was rejected" % what,
+                                      "rows and no error, or an error and no rows", dict(rows=rows, error=err, message=msg)))
+                    if kind == "cond" and not err and obj.field in REF_FIELDS and rows and not names_in(rows, REFS[vendor]):
+                        fails.append((K + "reference-not-recognised:%s" % vendor, "%s: the rows name no list the syntax table knows" % what, "a reference", rows))
+    # the stream of the whole program = the per-construct streams one after another, cut at the first rejected construct
     expected_events = []
     expected_err = None
     for pol in policies:
@@ -519,24 +540,14 @@ def _check_case(case):
                 break
             result = st.result.value
             if result not in RESULT_WORD:
-                expected_err = "KeyError"     # next_policy: no vendor expresses it; any error before the first row will do
+                # next_policy: no vendor expresses it; any error before the first row of that statement is a proper rejection
+                expected_err = "rejection of result %s" % result
                 summary["unsupported-result"] = result
                 break
             block = [(0, HEADER[vendor](pol.name, RESULT_WORD[result], st.number))]
             for kind, objs in (("cond", list(st.match)), ("act", list(st.then))):
                 for obj in objs:
                     rows, err, msg, bad_header = construct_outcome(vendor, variant, kind, obj)
-                    what = "%s %r on %s" % ("condition" if kind == "cond" else "action", obj, vendor)
-                    if bad_header:
-                        fails.append((K + "statement-header", "the block of a single-construct statement does not start with the header", HEADER[vendor]("ISO", "permit", 1), rows[:3]))
-                    if err and rows:
-                        fails.append((K + "error-after-lines:%s:%s" % (vendor, obj.field.value), "%s: rows were yielded for it and then it was rejected" % what,
-                                      "rows and no error, or an error and no rows", dict(rows=rows, error=err, message=msg)))
-                    elif err and err != "NotImplementedError":
-                        fails.append((K + "rejected-with-%s:%s:%s" % (err, vendor, obj.field.value), "%s: rejected with %s, not NotImplementedError" % (what, err),
-                                      "NotImplementedError", dict(error=err, message=msg)))
-                    if kind == "cond" and not err and obj.field in REF_FIELDS and rows and not names_in(rows, REFS[vendor]):
-                        fails.append((K + "reference-not-recognised", "%s: the rows name no list the syntax table knows" % what, "a reference", rows))
                     block += [(1, r) for r in rows]     # (rows before a rejection are reported above; here only compositionality)
                     if err:
                         expected_err = err
@@ -548,14 +559,9 @@ def _check_case(case):
             expected_events += block
     events, err, cumulus_lists = policy_stream(vendor, variant, policies)
     got_err = type(err).__name__ if err else None
-    if "unsupported-result" in summary:
-        # any error will do, but before the header of that statement
-        ok = got_err is not None and events == expected_events
-        if got_err not in (None, "NotImplementedError"):
-            fails.append((K + "rejected-with-%s:%s:result-%s" % (got_err, vendor, summary["unsupported-result"]), "result %s on %s: rejected with %s, not NotImplementedError"
-                          % (summary["unsupported-result"], vendor, got_err), "NotImplementedError", dict(error=got_err, message=str(err)[:150])))
-    elif expected_err:
-        # rejected: an error, and nothing but complete rows of the constructs before (the error may come earlier, e.g. from the list part)
+    if expected_err:
+        # rejected: an error of any class, and nothing but complete rows of the constructs before it (the error may come
+        # earlier than necessary, e.g. from the list part of cumulus)
         ok = got_err is not None and events == expected_events[:len(events)]
     else:
         ok = events == expected_events and got_err is None
